@@ -12,6 +12,7 @@
    C16_acted_on         (ConnSpec6.v) no PUBACK / PUBCOMP is dropped: the stored packet is deleted (and
                         with it, C16_ack_returns, the slot returned) before the processor reads again. *)
 From Coq Require Import List NArith Bool.
+From GM Require Broker.ConnProofsD5.
 From GM Require Import Base.Lts Codec.Packet Session.Store Broker.Conn Broker.ConnSpec Broker.ConnSpec2 Broker.ConnSpec5
   Broker.ConnSpec6 Broker.ConnProofsE2 Broker.ConnProofsE5 Broker.ConnProofsD3.
 Import ListNotations.
@@ -28,6 +29,12 @@ Print Assumptions C16_dequeued_is_sent.
 Theorem C16_acted_on : forall es s, bc_run es = Some s -> c20_acted_on es = true.
 Proof. exact c20_acted_on_holds. Qed.
 Print Assumptions C16_acted_on.
+
+(* "retransmissions after a resume included": the dequeuer does not start (and so cannot take a window slot for a fresh
+   message) before every stored packet has been re-sent — clause c15_resend_first, proved in ConnProofsD5.v *)
+Theorem C16_resend_before_dequeue : forall es s, bc_run es = Some s -> c15_resend_first es = true.
+Proof. exact GM.Broker.ConnProofsD5.c15_resend_first_holds. Qed.
+Print Assumptions C16_resend_before_dequeue.
 
 Example C16_audit_rejects :
   c16_quiescent_dequeuing [ENewConn; EDeqCall 3; EDeqRet 3 (QMsg e_m1 false); EQuiescent] = false /\
